@@ -88,6 +88,7 @@ OPS = {
     'riem_projection': (['any', 'same'], lambda E, o, s: E.tt.manifold.riemannian_projection(o[0], o[1])),
     'round_default': (['any'], lambda E, o, s: o[0].round()),
     'norm_untracked': (['any'], lambda E, o, s: o[0].norm()),
+    'norm_sq_untracked': (['any'], lambda E, o, s: o[0].norm(True)),
     'numel': (['any'], lambda E, o, s: E.tt.numel(o[0])),
     'repr': (['any'], lambda E, o, s: repr(o[0])),
 }
